@@ -1,5 +1,5 @@
 (* C08 - Pool failure reports are sound. *)
-From PW Require Import Pool.Model Pool.Run Pool.Inv.
+From PW Require Import Pool.Model Pool.Run Pool.Inv Pool.NoSpurious.
 Open Scope Z_scope.
 
 (* PoolError.partial_results holds only genuine results, at most one per input. *)
@@ -19,6 +19,25 @@ Theorem C08_return_genuine :
       /\ forall x, count_occ Z.eq_dec inputs x = (count_occ Z.eq_dec l x + count_occ Z.eq_dec dropped x)%nat.
 Proof. exact run_return_no_retry. Qed.
 
+(* PoolError is raised ONLY when no worker is left: for every configuration without a refusing enqueue_fn, every set
+   of pre-closed workers, every idle-worker choice and every environment script, when run() ends with PoolError every
+   worker of the pool has been closed (found dead).  Invariant J of Pool/NoSpurious.v: while a retry is queued or the
+   source is not known to be depleted, no open worker sits idle. *)
+Theorem C08_poolerror_only_when_no_worker_is_left :
+  forall c pre_closed pre inputs script p s',
+    (forall i x, refuse c i x = false) ->
+    run_from c (fold_left (env_step c) pre (fresh pre_closed)) inputs script = (PoolErr p, s') ->
+    forall j, (j < n c)%nat -> closed (w s' j) = true.
+Proof. exact poolerr_all_closed. Qed.
+
+(* with a refusing enqueue_fn the statement is false (known finding C08-R7) *)
+Theorem C08_refuted_with_refusing_enqueue_fn :
+  exists c inputs script p s', run_from c (fresh (fun _ => false)) inputs script = (PoolErr p, s') /\ closed (w s' 0%nat) = false.
+Proof.
+  exists (mkCfg 1 sq true 0 true (refuse_of [(0%nat, 1)]) (fun _ => 0%nat) false), [1], [].
+  eexists. eexists. split; [vm_compute; reflexivity|]. vm_compute. reflexivity.
+Qed.
+
 Example C08_example_poolerr :
   run (mkCfg 2 sq true 0 true (fun _ _ => false) (fun _ => 0%nat) false) (fun _ => false) []
       [1;2;3] [Ans 0%nat; Exit 0%nat; Exit 1%nat; Poll [0%nat; 1%nat]; Poll [0%nat]] = PoolErr [1].
@@ -26,3 +45,5 @@ Proof. vm_compute. reflexivity. Qed.
 
 Print Assumptions C08_partial_results_genuine.
 Print Assumptions C08_return_genuine.
+Print Assumptions C08_poolerror_only_when_no_worker_is_left.
+Print Assumptions C08_refuted_with_refusing_enqueue_fn.
